@@ -302,3 +302,78 @@ def remote_fault_probe(ctx, rep, mine, n=6):
             _viol(rep, 'unknown_object', f'after {what} a snapshot object is visible that no completed command wrote', dep)
         if out['after'] != 'ok' and 'exception' in mine:
             _viol(rep, 'exception', f'after {what} the repository is not usable any more (new snapshot + clean): {out["after"]}', dep)
+
+
+def remote_expiry_probe(ctx, rep, n=3):
+    """C09 over a coroutine backend whose authorisation expires while several transfers are outstanding (B2 against the fake service;
+    the account authorisation answers slowly): snapshot and restore at concurrency 1, 4 and 8 must end without a spurious error and
+    reproduce the files - one expired token is one refresh, whatever the number of transfers that ran into it."""
+    from harness import fakes_http as fk
+    from replicat.repository import Repository
+    from replicat.backends.b2 import B2
+    for trial in range(n):
+        rng = ctx.rng
+        conc = [1, 4, 8][trial % 3]
+        wd = Path(ctx.scratch) / f'remote-expiry-{trial}'
+        shutil.rmtree(wd, ignore_errors=True)
+        (wd / 'a').mkdir(parents=True)
+        data = {f'f{i}': rng.randbytes(rng.choice([300, 700, 1500])) for i in range(3)}
+        for k, v in data.items():
+            (wd / 'a' / k).write_bytes(v)
+        svc = fk.FakeB2('bkt', page_size=50, piece=64, max_requests=200000, authorize_delay=rng.choice([10, 40, 120]))
+        out = {}
+        skip_snap, skip_rest = rng.randint(3, 12), rng.randint(2, 8)
+
+        async def go():
+            be = B2(rng.choice(['bkt', svc.bucket_id]), key_id='kid', application_key='appkey')
+            settings = {'chunking': {'min_length': 32, 'max_length': 64}, 'hashing': {'name': 'blake2b', 'length': 16}, 'encryption': None}
+            await Repository(be, concurrent=conc, quiet=True, cache_directory=None).init(settings=settings)
+            r = Repository(be, concurrent=conc, quiet=True, cache_directory=None)
+            await r.unlock()
+            svc.plan = fk.FaultPlan([{'op': '*', 'kind': 'expire', 'count': 1, 'skip': skip_snap}])
+            try:
+                await r.snapshot(paths=[wd / 'a'])
+                out['snapshot'] = 'ok'
+            except Exception as e:
+                out['snapshot'] = f'{type(e).__name__}: {str(e)[:80]}'
+                return
+            out['fired_snapshot'] = len(svc.plan.fired)
+            r2 = Repository(be, concurrent=conc, quiet=True, cache_directory=None)
+            await r2.unlock()
+            svc.plan = fk.FaultPlan([{'op': '*', 'kind': 'expire', 'count': 1, 'skip': skip_rest}])
+            (wd / 'out').mkdir()
+            try:
+                await r2.restore(path=wd / 'out')
+                out['restore'] = 'ok'
+            except Exception as e:
+                out['restore'] = f'{type(e).__name__}: {str(e)[:80]}'
+                return
+            out['fired_restore'] = len(svc.plan.fired)
+            out['bytes'] = all(Path(wd / 'out', *Path(str((wd / 'a' / k).resolve())).parts[1:]).read_bytes() == v for k, v in data.items())
+            out['slots'] = (r._slots.qsize(), r2._slots.qsize())
+            await be.close()
+
+        err = None
+        with fk.patched_async_client(svc.handler), fk.VirtualSleep(), contextlib.redirect_stdout(io.StringIO()), contextlib.redirect_stderr(io.StringIO()):
+            try:
+                asyncio.run(asyncio.wait_for(go(), 120))
+            except (asyncio.TimeoutError, TimeoutError):
+                err = 'hang'
+            except Exception as e:
+                err = f'{type(e).__name__}: {str(e)[:120]}'
+        rep.case(('remote-expiry', conc, skip_snap, skip_rest), nontrivial=bool(out.get('fired_snapshot') or out.get('fired_restore')))
+        rep.count('remote_expiry_probe')
+        shutil.rmtree(wd, ignore_errors=True)
+        what = f'B2 backend, concurrency {conc}, the authorisation expires once during snapshot (request #{skip_snap}) and once during restore (request #{skip_rest}), authorise answers slowly'
+        replay = {'probe': 'remote_expiry'}
+        if err == 'hang':
+            rep.violations.append({'what': what + ': the history does not terminate', 'signature': {'kind': 'hang', 'probe': 'remote_expiry'}, 'replay': replay})
+        elif err is not None:
+            rep.disagreements.append({'what': 'remote expiry probe could not run: ' + err, 'replay': replay})
+        elif out.get('snapshot') != 'ok' or out.get('restore') != 'ok':
+            bad = out.get('snapshot') if out.get('snapshot') != 'ok' else out.get('restore')
+            rep.violations.append({'what': what + f': spurious error {bad} (one refresh masks one expired token)', 'signature': {'kind': 'spurious_error', 'probe': 'remote_expiry'}, 'replay': replay})
+        elif not out.get('bytes'):
+            rep.violations.append({'what': what + ': restored bytes differ', 'signature': {'kind': 'content', 'probe': 'remote_expiry'}, 'replay': replay})
+        elif out.get('slots') != (conc, conc):
+            rep.violations.append({'what': what + f': slots not all available afterwards {out.get("slots")}', 'signature': {'kind': 'slots', 'probe': 'remote_expiry'}, 'replay': replay})
